@@ -55,7 +55,7 @@ PROPS = {
     "C16": {
         "level": "proof",
         "lean_modules": ["SqlizeModel.Props.TieStrGo", "SqlizeModel.Props.C16", "SqlizeModel.Props.TieUtilsStr", "SqlizeModel.Props.TieBuilder"],
-        "theorems": ["Sqlize.Tie.translated_is_model", "Sqlize.Tie.gen_nextIsLower", "Sqlize.Tie.gen_fold", "Sqlize.C16.main", "Sqlize.C16.noCollision", "Sqlize.Tie.utils_str_skeleton_as_modelled", "Sqlize.Tie.builder_skeleton_as_modelled"],
+        "theorems": ["Sqlize.Tie.translated_is_model", "Sqlize.Tie.translated_obeys_rules", "Sqlize.Tie.translated_no_collision", "Sqlize.Tie.gen_nextIsLower", "Sqlize.Tie.gen_fold", "Sqlize.C16.main", "Sqlize.C16.noCollision", "Sqlize.Tie.utils_str_skeleton_as_modelled", "Sqlize.Tie.builder_skeleton_as_modelled"],
         "suites": [{"name": "snake"}],
         "rule": "exhaustive strings over {a,s,B,1,_} up to length 6 (quick) / 9 (thorough) + random ASCII identifiers "
                 "of length 1..25 biased to caps runs and final 's', + the builder route (column names AddTable prints for one-field structs with fixed and random exported field names, "
